@@ -386,4 +386,41 @@ theorem mergeCond_pair (a b : Option Shape) :
 
 end sem
 
+/-! ## concrete objects over ℤ for the non-vacuity instances (non-commuting bijections, nested chains) -/
+namespace Inst
+/-- base over ℤ: `log_prob x = x²`, the sample is the key -/
+def base : Distn Int Unit Int Int := ⟨fun x _ => x * x, fun k _ => k, fun k _ => (k, k * k)⟩
+def shift (a ld : Int) : B Int Unit Int :=
+  .leaf ⟨fun x _ => x + a, fun y _ => y - a, fun x _ => (x + a, ld), fun y _ => (y - a, -ld)⟩ [] none
+def neg (ld : Int) : B Int Unit Int := .leaf ⟨fun x _ => -x, fun y _ => -y, fun x _ => (-x, ld), fun y _ => (-y, -ld)⟩ [] none
+def dbl (ld : Int) : B Int Unit Int :=
+  .leaf ⟨fun x _ => 2 * x, fun y _ => y / 2, fun x _ => (2 * x, ld), fun y _ => (y / 2, -ld)⟩ [] none
+/-- `Chain([shift 3, Chain([neg, Chain([dbl])])])` -/
+def nestedChain : ChainObj Int Unit Int := ⟨[shift 3 100, .chain [neg 1000, .chain [dbl 10000] [] none] [] none], [], none⟩
+/-- `Transformed(Transformed(Transformed(base, shift 1), dbl), nestedChain)`: three levels, `x ↦ 2(x+1)` then `x ↦ 2·(−(x+3))` -/
+def t3 : TObj Int Unit Int Int := ⟨.transformed (.transformed (.base base [] none) (shift 1 1)) (dbl 10), nestedChain.toB⟩
+
+/-- what `merge_transforms()` returns, observed: log_prob at 20, sample / sample_and_log_prob for key 5, the number of members of
+the merged chain, whether the merged base is transformed, whether a member is a `Chain` -/
+def summary (t : TObj Int Unit Int Int) : Option (Int × Int × (Int × Int) × Nat × Bool × Bool) :=
+  match Transformed.mergeTransforms t with
+  | .ok m => some ((m.toD.toDistn).logProb 20 (), (m.toD.toDistn).sample 5 (), (m.toD.toDistn).sampleLp 5 (),
+      (match m.bijection with | .chain l _ _ => l.length | _ => 0), m.base_dist.isTransformed,
+      (match m.bijection with | .chain l _ _ => l.any B.isChain | _ => true))
+  | .error _ => none
+
+/-- what `merge_chains()` returns, observed: number of members, whether one is a `Chain`, transform / inverse at 5 -/
+def chainSummary (c : ChainObj Int Unit Int) : Option (Nat × Bool × Int × Int) :=
+  match Chain.mergeChains c with
+  | .ok c' => some (c'.bijections.length, c'.bijections.any B.isChain, c'.toB.toBij.fwd 5 (), c'.toB.toBij.inv 5 ())
+  | .error _ => none
+
+/-- `chain[i]` / `chain[a:b:k]` observed through `transform(5)` (and the number of members of a slice) -/
+def getSummary (c : ChainObj Int Unit Int) (i : Idx) : Except E (Nat × Int) :=
+  (Chain.getitem c i).map fun r => ((match r with | .chain l _ _ => l.length | _ => 0), r.toBij.fwd 5 ())
+
+/-- flat chain `[shift 3, neg, dbl, shift 1]` -/
+def flat4 : ChainObj Int Unit Int := ⟨[shift 3 100, neg 1000, dbl 10000, shift 1 1], [], none⟩
+end Inst
+
 end MergeGen
